@@ -4,7 +4,7 @@ from harness.runlevel import drive, check_point, Observer, DEFAULTS
 
 PROPERTY = "C01"
 HANG_IS_VIOLATION = True
-PATH_WALL_S = 30
+PATH_WALL_S = 60
 REPLAY_WALL_S = 20
 ASSUMPTIONS = [
     "box bounds are arbitrary reals lo<hi (the floating-point containment of midpoints is the separate lemma L-mid of C02); rewards are arbitrary finite reals",
